@@ -636,7 +636,7 @@ class nx_action_bundle (of.ofp_action_vendor_base):
       p += sl
 
     while len(p) % 8:
-      p += "\x00"
+      p += b"\x00"
 
     return p
 
